@@ -127,7 +127,9 @@ sx_make_symboln(const char *s, size_t len)
     if (node->data.symbol == NULL) {
         sxoom(__FILE__, __LINE__);
     }
-    strlcpy(node->data.symbol, s, n);
+    /* Copy exactly len octets: s need not be terminated (calloc did that for
+     * the copy), and strlcpy() would keep reading it until it finds a NUL. */
+    memcpy(node->data.symbol, s, len);
     return node;
 }
 
